@@ -23,8 +23,8 @@ CONE = {
     "C04": [("history", 350), ("scale_down", 150), ("to_abs", 200), ("to_rel", 200), ("rel_abs_rel", 200), ("getters", 120)],
     "C05": [("quantise", 800)],
     "C06": [("qnl", 700), ("pairings", 300)],
-    "C07": [("normalise", 900)],
-    "C08": [("split", 800)],
+    "C07": [("normalise", 900), ("concat_repeat", 300)],
+    "C08": [("split", 800), ("concat_repeat", 300)],
     "C09": [("split_bars", 500), ("bar", 200)],
     "C10": [("bar", 700)],
     "C11": [("history", 250), ("bar", 200), ("split_bars", 150), ("pad", 150), ("tok_roundtrip", 150), ("composition", 100), ("util", 250)],
@@ -32,9 +32,9 @@ CONE = {
     "C13": [("midi_load", 600)],
     "C14": [("transpose_rel", 600), ("history", 150), ("composition", 120)],
     "C15": [("merge", 600)],
-    "C16": [("history", 450), ("composition", 150)],
+    "C16": [("history", 450), ("composition", 150), ("concat_repeat", 150)],
     "C17": [("equals", 800), ("interleaved", 300)],
-    "C18": [("pad", 300), ("cutoff", 400), ("scale", 300), ("set_channel", 300)],
+    "C18": [("pad", 300), ("cutoff", 400), ("scale", 300), ("set_channel", 300), ("concat_repeat", 300)],
     "C19": [("tok_stream", 500), ("tok_roundtrip", 150)],
     "C20": [("music_theory", 1500)],
 }
